@@ -10,7 +10,7 @@ from .. import core, session as S, progs, fills
 from ..core import Violation
 
 ID = 'C12'
-T = {'1m': 1, '3m': 3, '5m': 5, '15m': 15, '30m': 30, '1h': 60}
+T = {'1m': 1, '3m': 3, '5m': 5, '15m': 15, '30m': 30, '45m': 45, '1h': 60}
 
 MIN = {'U': (0, 1, 0, 0), 'D': (0, -1, 0, 0), 'u': (0, 1, 1, 1), 'd': (0, -1, 1, 1), 'o': (0, 0, 1, 1),
        'G': (-1, 2, 0, 0), 'g': (1, -2, 0, 0)}     # G: opens one tick below the previous close and rallies one tick above it
@@ -69,6 +69,9 @@ def configs(quick):
         out.append(('15m', [], 'spot', ('blocks', 5, P4[:3], 6), 3))
         out.append(('30m', [['BTC-USDT', '1h']], 'futures', ('blocks', 15, P4, 4), 3))
         out.append(('1h', [], 'futures', ('blocks', 15, P4[:3], 4), 3))
+        # route timeframes that do not divide each other (chunk = gcd, not the smaller one)
+        out.append(('5m', [['BTC-USDT', '3m']], 'futures', ('blocks', 5, P4b, 3), 3))
+        out.append(('45m', [['BTC-USDT', '30m']], 'futures', ('blocks', 15, P4b[:3], 6), 3))
         return out
     for kind, n in (('futures', 6), ('spot', 3)):
         out.append(('1m', [], kind, ('minutes', 'UDud', 7), n))
@@ -81,6 +84,9 @@ def configs(quick):
     out.append(('1h', [], 'futures', ('blocks', 15, P5, 4), 6))
     out.append(('5m', [['BTC-USDT', '1m']], 'futures', ('blocks', 5, P4, 3), 6))
     out.append(('1h', [['BTC-USDT', '15m']], 'spot', ('blocks', 15, P4, 4), 3))
+    out.append(('5m', [['BTC-USDT', '3m']], 'futures', ('blocks', 5, P5, 4), 6))
+    out.append(('45m', [['BTC-USDT', '30m']], 'futures', ('blocks', 15, P4b, 6), 6))
+    out.append(('45m', [['BTC-USDT', '1h']], 'spot', ('blocks', 15, P4b, 8), 3))
     return out
 
 
@@ -99,7 +105,9 @@ def words(gen):
 
 def build(minutes, tf, droutes, kind, spec, emb, fast):
     base, tick, unit = emb
-    span = max([T[tf]] + [T[d[1]] for d in droutes])
+    span = T[tf]
+    for d in droutes:
+        span = span * T[d[1]] // __import__('math').gcd(span, T[d[1]])      # lcm: a multiple of every route timeframe
     lead = [progs.SHAPES['FLAT']] * T[tf]
     w = lead + list(minutes)
     while len(w) % span:
